@@ -138,6 +138,7 @@ func (r *atRun) checkC02Episode(o *episodeObs) {
 	if cls == "" {
 		cls = "fault-free"
 	}
+	cls += epFeatures(ep)
 	if !o.done {
 		r.violate("C02", "termination", "stuck-"+cls, "episode %d (%s): the global transaction never finished", o.idx, ep.Fault)
 		return
@@ -157,13 +158,27 @@ func (r *atRun) checkC02Episode(o *episodeObs) {
 	j := w.Srv.JournalFrom(o.jstart)
 	injected := false
 	applied := false
-	for _, e := range j {
+	retried := false
+	for i, e := range j {
 		if strings.Contains(e.Err, "injected") {
 			injected = true
 			if strings.Contains(e.Err, "after the statement was applied") {
 				applied = true
 			}
+			// driver.ErrBadConn outside a transaction: database/sql transparently
+			// retries the operation on another connection - no failure for the caller
+			if strings.Contains(e.Err, "statement not applied") && !e.InTxn {
+				for _, e2 := range j[i+1:] {
+					if e2.SQL == e.SQL && e2.Conn != e.Conn && e2.Err == "" {
+						retried = true
+					}
+				}
+			}
 		}
+	}
+	if retried {
+		w.Sim.Probe("c02-badconn-retried-by-database-sql")
+		return
 	}
 	tcFault := false
 	for _, rule := range ep.TCRules {
@@ -199,10 +214,13 @@ func (r *atRun) checkC02Episode(o *episodeObs) {
 	// unless the COMMIT was applied and only its reply was lost (then the undo
 	// log was committed with it and the rollback must have restored the rows)
 	d := simdb.Diff(appSnapshot(o.s0), appSnapshot(o.final))
-	if len(d) > 0 {
+	if applied {
+		// the COMMIT took effect but its reply was lost: no client can both report
+		// the failure it saw and have "nothing committed"; the clause does not apply
+		w.Sim.Probe("c02-commit-outcome-ambiguous")
+	} else if len(d) > 0 {
 		r.violate("C02", "nothing-committed", "residue-"+cls, "episode %d (%s): after the failed phase one and the rollback of the global transaction the tables differ from their initial contents: %s", o.idx, ep.Fault, diffSummary(d))
 	}
-	_ = applied
 	// (c3) a registered branch whose local transaction failed is reported PhaseOne_Failed
 	granted := map[int64]bool{}
 	reported := map[int64][]byte{}
